@@ -3,7 +3,7 @@
 Iterable interface for the GraphQL Language lexer.
 """
 
-from string import ascii_letters
+from string import ascii_letters, digits, hexdigits
 from typing import Container, Iterator, List, Mapping, Optional, Union
 
 from .._string_utils import ensure_unicode, parse_block_string
@@ -233,12 +233,12 @@ class Lexer:
 
             self._position += 1
 
-            if not char.isalnum():
+            if char not in hexdigits:
                 break
 
         escape = self._source[start : self._position]
 
-        if len(escape) != 4:
+        if len(escape) != 4 or escape[-1] not in hexdigits:
             raise InvalidEscapeSequence(
                 "\\u%s" % escape, start - 1, self._source
             )
@@ -325,7 +325,7 @@ class Lexer:
             except IndexError:
                 pass
             else:
-                if char.isdigit():
+                if char in digits:
                     raise UnexpectedCharacter(
                         'Unexpected character "%s"' % char,
                         self._position,
@@ -340,13 +340,13 @@ class Lexer:
         except IndexError:
             raise UnexpectedEOF(self._position, self._source)
 
-        if not (char.isdigit()):
+        if char not in digits:
             raise UnexpectedCharacter(
                 'Unexpected character "%s"' % char, self._position, self._source
             )
 
         while True:
-            if char is not None and char.isdigit():
+            if char is not None and char in digits:
                 self._position += 1
                 try:
                     char = self._source[self._position]
@@ -365,7 +365,7 @@ class Lexer:
             except IndexError:
                 break
 
-            if char == "_" or char in __ascii_letters or char.isdigit():
+            if char == "_" or char in __ascii_letters or char in digits:
                 self._position += 1
             else:
                 break
@@ -415,7 +415,7 @@ class Lexer:
             return self._read_block_string()
         elif char == '"':
             return self._read_string()
-        elif char == "-" or char.isdigit():
+        elif char == "-" or char in digits:
             return self._read_number()
         elif char == "_" or char in ascii_letters:
             return self._read_name()
